@@ -76,10 +76,9 @@ def build_cell(case, system, lattice):
     else:
         recip = 2 * np.pi * np.linalg.inv(lattice).T
         rr = recip / NKFFT[:, None]
-        vol_red = 1.0  # volume of the reduced reciprocal cell in its own units
-        # length such that tetrahedra larger than vfrac (in units of the cell) are split
+        # length such that tetrahedra larger than vfrac (in units of the reduced reciprocal cell) are split
         V = abs(np.linalg.det(lattice)) * np.prod(NKFFT)
-        length = (V / (cell["vfrac"] * vol_red)) ** (1 / 3)
+        length = (V / cell["vfrac"]) ** (1 / 3)
         s0 = max(np.linalg.norm(np.array(c) @ rr) for c in itertools.product((-1, 0, 1), repeat=3))
         length_size = 2 * np.pi * np.sqrt(2) / (cell["sizef"] * s0)
         if cell["src"] == "custom":
@@ -116,30 +115,35 @@ def corner_points(case, K):
 
 
 def reference(case, bands, K, phonon=False, tie=None):
-    """bands(k) -> sorted eigenvalues; returns centre energies, corner energies, mask of comparable entries"""
+    """bands(k) -> sorted eigenvalues; returns centre energies, corner energies and the masks of comparable entries"""
     kc, off = corner_points(case, K)
     cshape = off.shape[:-1]
     offs = off.reshape(-1, 3)
     Ec = np.array([bands(k) for k in kc])
     Eco = np.array([[bands(k + v) for v in offs] for k in kc])  # (nk, ncorner, nb)
     mask = np.ones(Eco.shape, dtype=bool)
+    cmask = np.ones(Ec.shape, dtype=bool)
     if tie is not None:
         for ik, k in enumerate(kc):
+            if tie(k):
+                cmask[ik, :] = False
             for iv, v in enumerate(offs):
                 if tie(k + v):
                     mask[ik, iv, :] = False
     if phonon:
         mask &= np.abs(Eco) > 1e-6
+        cmask &= np.abs(Ec) > 1e-6
         Ec = np.sign(Ec) * np.sqrt(np.abs(Ec))
         Eco = np.sign(Eco) * np.sqrt(np.abs(Eco))
-    return Ec, Eco.reshape((len(kc),) + cshape + (Eco.shape[-1],)), mask.reshape((len(kc),) + cshape + (Eco.shape[-1],))
+    full = (len(kc),) + cshape + (Eco.shape[-1],)
+    return Ec, Eco.reshape(full), cmask, mask.reshape(full)
 
 
-def window(case, Ec):
-    """Emin/Emax placed in gaps (> 1e-6) of the sorted centre energies; returns (params, select_K, select_B)"""
+def window(case, Ec, cmask):
+    """Emin/Emax placed in gaps (> 1e-4) of the sorted centre energies; returns (params, select_K, select_B, window)"""
     nk, nb = Ec.shape
     allK, allB = np.ones(nk, dtype=bool), np.ones(nb, dtype=bool)
-    if case["sel"] is None:
+    if case["sel"] is None or not cmask.all():
         return {}, allK, allB, None
     flat = np.sort(Ec.ravel())
     gaps = [i for i in range(len(flat) - 1) if flat[i + 1] - flat[i] > 1e-4]
@@ -157,8 +161,8 @@ def window(case, Ec):
 def compare(case, system, lattice, bands, phonon=False, tie=None, labels=()):
     from wannierberri.data_K import get_data_k_class_from_system
     grid, K, clabels = build_cell(case, system, lattice)
-    Ec, Eco, mask = reference(case, bands, K, phonon=phonon, tie=tie)
-    params, selK, selB, win = window(case, Ec)
+    Ec, Eco, cmask, mask = reference(case, bands, K, phonon=phonon, tie=tie)
+    params, selK, selB, win = window(case, Ec, cmask)
     cls = get_data_k_class_from_system(system)
     dk = cls(system, grid=grid, dK=K.Kp_fullBZ, Kpoint=K, **params)
     par = case["cell"]["type"] == "parallel"
@@ -171,8 +175,9 @@ def compare(case, system, lattice, bands, phonon=False, tie=None, labels=()):
     want_c = Ec[selK][:, selB]
     if Ecentre.shape != want_c.shape:
         raise Violation("centre-selection", f"E_K has shape {Ecentre.shape}, expected {want_c.shape} for window {win}")
-    if reldiff(Ecentre, want_c) > TOL and tie is None:
-        raise Violation("centre-energies", f"E_K differs from the own band energies by {reldiff(Ecentre, want_c):.2e}")
+    errc = np.abs(Ecentre - want_c) * cmask[selK][:, selB]
+    if errc.max(initial=0.0) > TOL * (1.0 + maxabs(want_c)):
+        raise Violation("centre-energies", f"E_K differs from the own band energies by {errc.max():.2e}")
     want = Eco[selK][..., selB]
     m = mask[selK][..., selB]
     kind = "parallel" if par else "tetra"
@@ -190,7 +195,6 @@ def compare(case, system, lattice, bands, phonon=False, tie=None, labels=()):
             raise Violation(f"{kind}-slow-reference", f"E_K_corners_{kind}_test() differs from E_K_corners_{kind}() by "
                             f"{reldiff(slow, got):.2e}")
     # how much do corners differ from the centre (non-triviality) -- on the unselected reference
-    spread = max(maxabs((Eco[:, i] - Ec)) for i in np.ndindex(Eco.shape[1:-1])) if Eco.size else 0.0
     spread = float(np.max(np.abs(Eco.reshape(Eco.shape[0], -1, Eco.shape[-1]) - Ec[:, None, :]))) if Eco.size else 0.0
     lab = list(labels) + clabels + [("window" if win is not None else None), ("E_K-first" if efirst else "corners-first"),
                                     ("slowref" if case["slowref"] and m.all() else None),
